@@ -76,6 +76,21 @@ def fault_snippets(w):
         'internal-label-predeclared': ([';', 'ns _ {', 'wflip_area_start_0:', '}', ';', 'segment 16*w', ';'], 'only', ['wflip_area_start_0']),
         'huge-literal': ([';' + '9' * 5000], 'end', ['literal', 'number', 'digit', 'too', 'long', 'big', 'fit', 'bits', 'range']),
     }
+    f['non-utf8-source-bytes'] = (['\xff\xfe;'], 'end', ['utf', 'decode', 'encod', 'byte'])
+    # values far beyond any word (no python int -> decimal string conversion may be attempted on them: 4300-digit limit)
+    huge = '(1 << 20000)'
+    hn = ['fit', 'range', 'bits', 'space', 'big', 'large', 'evaluate', 'align', 'data words must be', 'memory can hold']
+    f['huge-value:flip'] = ([huge + ';'], 'end', hn)
+    f['huge-value:jump'] = ([';' + huge], 'end', hn)
+    f['huge-value:negative-flip'] = (['0 - ' + huge + ';'], 'end', hn + ['negative'])
+    f['huge-value:via-label'] = ([';zz_l * ' + huge + ' + ' + huge, 'zz_l:'], 'end', hn + ['zz_l'])
+    f['huge-value:wflip-value'] = (['wflip 0, ' + huge], 'end', hn)
+    f['huge-value:wflip-address'] = (['wflip ' + huge + ', 1'], 'end', hn)
+    f['huge-value:pad'] = (['pad ' + huge], 'end', hn + ['pad'])
+    f['huge-value:reserve'] = (['reserve ' + huge], 'end', hn + ['reserve'])
+    f['huge-value:segment'] = (['segment ' + huge, ';'], 'end', hn + ['segment'])
+    f['huge-value:macro-arg'] = (['def zz_m p {', ';p', '}', 'zz_m ' + huge], 'end', hn + ['zz_m'])
+    f['huge-value:const'] = (['zz_c = ' + huge, ';zz_c'], 'top', hn + ['zz_c'])
     # preprocessor-stage errors raised while other expansions are on the stack (the error reporter walks the stack):
     # below a nested macro, a constant-counted rep, a rep whose count depends on labels declared earlier, and a namespace
     inner = {'unknown-macro': (['zz_unknown 1, 2'], ['zz_unknown']),
@@ -211,7 +226,8 @@ def assemble(src, w, version):
     from flipjump.utils.exceptions import FlipJumpException
     tmp = engines.tmpdir()
     f = tmp / 'c14.fj'
-    f.write_text(src, encoding='utf-8', errors='surrogateescape') if False else f.write_bytes(src.encode('utf-8', 'replace'))
+    # generated sources are ascii; a character 128..255 (byte mutations, the non-utf8 fault) is written as that raw byte
+    f.write_bytes(src.encode('latin-1', 'replace'))
     out = tmp / 'c14.fjm'
     if os.path.exists(out):
         os.unlink(out)
